@@ -15,7 +15,7 @@ EXPLANATION = (
     "Contract-based (bounded-symbolic): reindex_database (plain reindex, or `db reindex PAGE` for one page on disk) is verified against an ABSTRACT index - a map from page "
     "name to the content the page was compiled from, maintained by stubs of SQLRepo.remove_file_by_name / add_file and "
     "walk_zorg_page: from every state in which the stored hash map describes the index (the invariant each create / reindex "
-    "establishes), the index afterwards holds exactly the pages on disk, each with its current content - which is what a fresh "
+    "establishes - create_database is verified to establish it from a fresh index), the index afterwards holds exactly the pages on disk, each with its current content - which is what a fresh "
     "`db create` yields in this view - the stored hash map describes the new index again (the invariant is re-established), no "
     "page is written, and the command refuses (RuntimeError) exactly when a new or changed page has syntax errors "
     "with an explicit page only that page's index entry and stored digest change "
